@@ -157,6 +157,19 @@ Theorem C11_hugr_only_defined_ops_change : forall reg,
                  get_node (resolve_extensions reg h) i = Some n).
 Proof. exact hugr_only_defined_ops_change_thm. Qed.
 
+(* ---- every depth, at HUGR level: in a HUGR as loading produces it (opaque operations only, no definition-backed
+   type) no resolved operation keeps a resolvable opaque type in its signature or type arguments, at any node of
+   the HUGR or of a HUGR nested in a constant *)
+Theorem C11_hugr_reaches_every_depth : forall reg, RegWF reg ->
+  (forall h, hugr_all op_loaded h = true -> hugr_all (op_clean reg) (resolve_extensions reg h) = true) /\
+  (forall o, op_loaded o = true -> op_clean reg (resolve_op reg o) = true).
+Proof. exact hugr_reaches_every_depth_thm. Qed.
+
+(* the body of a function value is resolved by the very loop of resolve_extensions *)
+Theorem C11_hugr_function_values_by_the_same_loop : forall reg b,
+  resolve_val reg (VFunc b) = VFunc (resolve_extensions reg b).
+Proof. exact resolve_val_func_loop. Qed.
+
 (* ---- (b) resolving twice equals resolving once, for the whole HUGR (no guard) *)
 Theorem C11_hugr_idempotent : forall reg,
   (forall h, resolve_extensions reg (resolve_extensions reg h) = resolve_extensions reg h) /\
@@ -253,3 +266,5 @@ Print Assumptions C11_hugr_document_unchanged.
 Print Assumptions C11_document_frame_through_enc.
 Print Assumptions C11_hugr_port_types.
 Print Assumptions C11_hugr_monitor_sound.
+Print Assumptions C11_hugr_reaches_every_depth.
+Print Assumptions C11_hugr_function_values_by_the_same_loop.
